@@ -492,6 +492,13 @@ class Executor:
             if op.get("grid"):
                 out["values"] = [[float(f(x, t)), float(g(x, t))] for (x, t) in op["grid"]]
             return out
+        if fn == "new_mixture":
+            n_ = a["nrtl"]
+            mx = Mixture(name=a["name"], first_component=a["first_component"], second_component=a["second_component"],
+                         nrtl_params=NRTLParameters(g12=n_["g12"], g21=n_["g21"], alpha12=n_["alpha12"]))
+            return {"name": mx.name, "g12": mx.nrtl_params.g12}
+        if fn == "load_membrane":
+            return build.load_membrane(self.root, op["dir"])
         if fn == "fn_new_call":
             f = build.function(op["spec"])
             return [f(x, t) for (x, t) in op["grid_args"]]
